@@ -129,7 +129,7 @@ func e2eSend(name string, id, seq string, status int64) (modified bool) {
 }
 
 type e2eEvent struct {
-	Op    string `json:"op"` // req | resp | reload
+	Op    string `json:"op"` // req | resp | reload | req-again (the request message of an open transaction arrives a second time)
 	Txn   int    `json:"txn,omitempty"`
 	Retry bool   `json:"retry_on,omitempty"` // reload: does the new version enable the retry remedy
 	// FailReq (reload): the new version also carries a remedy that fails on every request
@@ -168,6 +168,10 @@ func genE2E() *rapid.Generator[e2eCase] {
 			switch k := rapid.IntRange(0, 9).Draw(t, "ev"); {
 			case k < 3:
 				c.Events = append(c.Events, e2eEvent{Op: "reload", Retry: rapid.Bool().Draw(t, "retry"), FailReq: rapid.IntRange(0, 2).Draw(t, "fail-req") == 0})
+			case k == 9 && len(pendingResp) > 0:
+				// the request message of a transaction that is under way is delivered once more (the statement
+				// speaks of the version current when the request was FIRST seen)
+				c.Events = append(c.Events, e2eEvent{Op: "req-again", Txn: pendingResp[rapid.IntRange(0, len(pendingResp)-1).Draw(t, "again")]})
 			case k < 6 && len(pendingReq) > 0:
 				i := pendingReq[0] // requests in transaction order (a retried attempt comes after the first one)
 				pendingReq = pendingReq[1:]
@@ -249,6 +253,12 @@ func TestMessageHandlersE2E(t *testing.T) {
 				e2eSend("lunar-on-request", tid, seq, 0)
 				pinned[e.Txn] = current
 				open[e.Txn] = true
+			case "req-again":
+				tid, seq := id(e.Txn)
+				e2eSend("lunar-on-request", tid, seq, 0)
+				if reloadBetween[e.Txn] {
+					r.Class("request message seen a second time after a reload that changed the remedy set")
+				}
 			case "resp":
 				tid, seq := id(e.Txn)
 				got := e2eSend("lunar-on-response", tid, seq, 500)
